@@ -16,13 +16,13 @@ pub const SPECS: &[PropSpec] = &[
     PropSpec { id: "C05", level: "exploration", quick_runs: 60_000, thorough_runs: 1_500_000,
         rule: "seeded histories with deliberately invalid calls, executed in lock-step with the sequential reference model; after every call: outcome == model outcome, full observable state == model, 2 PRNG RangeBounds probes and accessors on a missing queue. Non-trivial: history has >=1 rejected/no-op call, >=1 truncate evicting part of a queue and >=1 range probe. Distinct: hash of (op kinds, size classes, outcomes, policy, max files).",
         assumptions: &["no fault involved: decided in the fault-free configuration of the simulator (restart op, deterministic hash order)"] },
-    PropSpec { id: "C06", level: "exploration", quick_runs: 20_000, thorough_runs: 600_000,
+    PropSpec { id: "C06", level: "exploration", quick_runs: 25_000, thorough_runs: 600_000,
         rule: "roll-over heavy seeded histories; after every truncate/delete_queue/open the SimFs directory listing and disk_used_bytes are compared with a bound computed from the write cursor (sum of wal_bytes_written) and the model's retained records. Every third history is additionally crashed at 16 sampled effect boundaries / torn writes (biased to roll-over and unlink effects, any policy); the recovered log must hold no file older than both the file recovery attributes its oldest retained record to (independent parser over the crash image) and the file recovery resumed writing in. Non-trivial: an evaluation where the call removed >=1 of >=2 files or where an older file is legitimately kept. Distinct: history signature.",
         assumptions: &["verdict on fault-free histories with clean restarts only (the statement quantifies over histories)", "record->file attribution = file holding the write cursor when the append began"] },
     PropSpec { id: "C15", level: "exploration", quick_runs: 60_000, thorough_runs: 1_500_000,
         rule: "seeded histories under all policies; per call (flush-per-call policies) or per flush point (others) the sum of wal_bytes_written is compared with the bytes of the Write effects on WAL files, and the running sum with the file-system write cursor. Non-trivial: history wrote padding, rolled over, or GC wrote position records. Distinct: history signature.",
         assumptions: &["bytes written by the GC inside open are not attributed to any call"] },
-    PropSpec { id: "C16", level: "exploration", quick_runs: 30_000, thorough_runs: 800_000,
+    PropSpec { id: "C16", level: "exploration", quick_runs: 40_000, thorough_runs: 800_000,
         rule: "seeded histories; after every call N+B <= memory_used_bytes <= N+B+64R, used <= allocated, truncate releases between b and b+64n, names-only baseline when all queues are empty; every fourth run additionally opens 8 damaged copies of the final image (single-frame payload damage, aimed overwrites) and requires the same bounds of the recovered log relative to the state it shows. Non-trivial: history has a truncate evicting part of a queue and a point where all queues are empty. Distinct: history signature.",
         assumptions: &["state invariant monitored while simulated histories run; no fault enters this property"] },
     PropSpec { id: "C17", level: "exploration", quick_runs: 8_000, thorough_runs: 300_000,
